@@ -93,6 +93,14 @@ fn main() {
         "forkid-worker" => syncnodes::worker(seed, tier, args[4].parse().unwrap_or(0)),
         "produce" => produce::run(seed, tier, out),
         "produce-one" => produce::one(&args[2], args[3].parse().unwrap_or(1)),
+        // debugging aid: print the text of a generated scenario: harness produce-dump <seed> <tier> <name>
+        "produce-dump" => {
+            for sc in produce::scenarios(seed, tier) {
+                if sc.name == args[4] {
+                    println!("{}", produce::scenario_text(&sc));
+                }
+            }
+        }
         "produce-worker" => produce::worker(seed, tier, args[4].parse().unwrap_or(0)),
         "atr" => atr::run(seed, tier, out),
         "atr-worker" => atr::worker(seed, tier, args[4].parse().unwrap_or(0)),
